@@ -26,6 +26,7 @@ type Profile struct {
 	PSSOmitDefaults bool    // RSASSA-PSS-params in strict DER (defaults omitted) instead of the fully explicit form
 	PSSSaltLen      int     // 0 = hash length
 	CSCATwoOUs      bool    // the CSCA's name carries TWO organizationalUnitName attributes (a repeated attribute type)
+	CSCANonASCII    bool    // the CSCA's organizationName contains characters outside ASCII (Latin-1 range), as UTF8String
 }
 
 func (p Profile) String() string {
@@ -56,7 +57,7 @@ var (
 // NewIssuer creates (and memoises per profile) the CSCA certificate (self-signed, CA, pathLen 0, keyCertSign+cRLSign)
 // and a DS certificate (digitalSignature, AKI = CSCA SKI) for the profile. Keys come from LoadKey.
 func NewIssuer(p Profile) *Issuer {
-	id := fmt.Sprintf("%s|%v|%d|%v", p.String(), p.PSSOmitDefaults, p.PSSSaltLen, p.CSCATwoOUs)
+	id := fmt.Sprintf("%s|%v|%d|%v", p.String(), p.PSSOmitDefaults, p.PSSSaltLen, p.CSCATwoOUs) + fmt.Sprint(p.CSCANonASCII)
 	issuerMu.Lock()
 	defer issuerMu.Unlock()
 	if is := issuerCache[id]; is != nil {
@@ -64,6 +65,9 @@ func NewIssuer(p Profile) *Issuer {
 	}
 	is := &Issuer{Profile: p, CSCAKey: LoadKey(p.CSCA), DSKey: LoadKey(p.DS)}
 	is.CSCAName = NewName(p.Country, "Reference State", "Passport Authority", "CSCA "+p.Country)
+	if p.CSCANonASCII {
+		is.CSCAName[1].Value = "R\u00e9f\u00e9rence St\u00e4te"
+	}
 	if p.CSCATwoOUs {
 		is.CSCAName = Name{is.CSCAName[0], is.CSCAName[1], is.CSCAName[2], Attr{OIDOrgUnit, "Identity Documents Division", 0x0C}, is.CSCAName[3]}
 	}
